@@ -291,6 +291,15 @@ func run(s Script) (res vt.Result) {
 		res.Failf("tool t is not listed with an input schema")
 		return
 	}
+	if s.Family == "gotype" {
+		// The schemas derived for a Go type do not depend on what else a shared SchemaCache has seen.
+		if ref, err := goPublished(); err == nil {
+			if want := ref[s.Type]; !jsonEq(pub.In, want.In) || !jsonEq(pub.Out, want.Out) {
+				res.Failf("tool of Go type family member %q (shared SchemaCache: %v) publishes input %s / output %s; a server without a cache publishes %s / %s", s.Type, s.Cache, mustJSON(pub.In), mustJSON(pub.Out), mustJSON(want.In), mustJSON(want.Out))
+				return
+			}
+		}
+	}
 	fam := "family:" + s.Family
 	if s.Type != "" {
 		fam = "gotype:" + s.Type
